@@ -21,7 +21,9 @@ def direct_cases(tier, rng):
         url = f"{scheme}://{hurl}" + (f":{port}" if port else "") + path + (f"?{q}" if q else "")
         yield url, (hname, port or (80 if scheme == "ws" else 443), (path or "/") + (f"?{q}" if q else ""), scheme == "wss")
     for bad in ["example.com/path", "http://example.com/", "https://h/", "ws:/h/p", "ws:h", "ws:///p", "wss://:443/", "://h/", "WS://h/",
-                "ftp://h/", "", "ws", "ws//h", "ws://@:80/p"]:
+                "ftp://h/", "", "ws", "ws//h", "ws://@:80/p",
+                # a foreign or empty scheme is refused whether or not a port is given
+                "http://example.com:8080/r", "https://example.com:8443/chat", "://h:9000/", "tcp://[2001:db8::1]:65535/x", "wsx://h:80/", "w://h:443/"]:
         yield bad, "ValueError"
     yield "ws://h/path;", ("h", 80, "/path;", False)       # known finding: the trailing ';' is dropped
 
